@@ -241,10 +241,9 @@ func VH_C20_schema_budget() {
 	n, err := enc.nodes.Find(vTypeID)
 	vAssume(err == nil)
 	sm := n.Struct.Segment().Message()
-	initial := sm.TraverseLimit
-	if initial == 0 {
-		initial = 64 << 20
-	}
+	// what the cached schema message's read limiter really has left now, less whatever further
+	// Encode calls of a long-used encoder can have consumed (up to 2^40 bytes of schema reads)
+	initial := capnp.VBudgetLeft(sm)
 	used := vNondetU64()
 	vAssume(used <= 1<<40)
 	left := uint64(0)
